@@ -21,6 +21,8 @@ type BeansDB struct {
 	Home    string
 	LevelDB *leveldb.LevelDBDatabase
 	Queue   *FileQueue
+	// Scan is called for every record which is replayed from the write-ahead file at start
+	Scan ScanExtend
 }
 
 func NewBeansDB(home string, levelDB *leveldb.LevelDBDatabase) *BeansDB {
@@ -32,6 +34,7 @@ func NewBeansDB(home string, levelDB *leveldb.LevelDBDatabase) *BeansDB {
 
 func (beansdb *BeansDB) Start() {
 	beansdb.Queue = NewFileQueue(beansdb.Home, beansdb.LevelDB, beansdb)
+	beansdb.Queue.Scan = beansdb.Scan
 	beansdb.Queue.Start()
 }
 
